@@ -223,7 +223,7 @@ def _mean_case(draw, tier):
   return {'nlat': nlat, 'nlon': nlon, 'spacing': draw(st.sampled_from(list(gens.SPACINGS))),
           'offset': draw(st.sampled_from([0.0, 0.3, -1.0])), 'radius': draw(st.sampled_from([None, 1.0, 2.5, 6.37e6])),
           'times': [[draw(st.floats(0, 1, allow_nan=False, width=32)), draw(st.floats(0, 1, allow_nan=False, width=32))]
-                    for _ in range(draw(st.integers(3, 8)))],
+                    for _ in range(draw(st.integers(8, 20)))],
           'consts': draw(st.sampled_from(['default', 'normalized_like']))}
 
 
@@ -419,7 +419,7 @@ def _hs_case(draw, tier):
           't_ref': [draw(st.floats(200.0, 310.0, allow_nan=False, width=32)) for _ in range(n)],
           'lnps_amp': draw(st.sampled_from([0.0, 0.05, 0.05, 0.3])), 'mean_ps': draw(st.sampled_from([1e5, 1e5, 7e4, 1.05e5])),
           'states': [{'seed': draw(st.integers(0, 2 ** 16)), 'amp': draw(st.sampled_from([1.0, 1.0, 0.01, 30.0])),
-                      'slope': draw(st.sampled_from([0, 0, 1, 2]))} for _ in range(draw(st.integers(1, 3)))]}
+                      'slope': draw(st.sampled_from([0, 0, 1, 2]))} for _ in range(draw(st.integers(2, 5)))]}
 
 
 def _hs_build(case, grid_cfg, spec_scale_si, specs):
